@@ -1183,6 +1183,7 @@ class Verifier:
         yt = self.c.yields
         if yt is None:
             raise Unsupported('yield without `yields` type in contract')
+        val = self.require_not_none(st, val, yt, node)
         if not self.spec_mode and self.c.yield_each_local and not self.inline_depth:
             cv = as_sv(val, yt)
             for e in self.c.yield_each_local:
@@ -1214,6 +1215,23 @@ class Verifier:
         if cur is None:
             cur = SV(SeqT(yt), z3.Empty(sort_of(SeqT(yt))))
         st.ghost['yielded'] = SV(SeqT(yt), z3.Concat(cur.z, z3.Unit(pack(val, yt))))
+
+    def require_not_none(self, st, val, t, node):
+        """a value that may be None where the contract's result type requires a value: an obligation (the declared
+        type is part of the postcondition), after which the value is unwrapped"""
+        inner = t.inner if isinstance(t, OptT) else t
+        if isinstance(inner, TupT):
+            its = val.items if isinstance(val, MTup) else None
+            if its is not None and len(its) == len(inner.items):
+                new = []
+                for v, ti in zip(its, inner.items):
+                    if isinstance(v, SV) and isinstance(v.t, OptT) and not isinstance(ti, OptT) and ti != ANY:
+                        self.oblige(st, z3.Not(opt_is_none(v.t, v.z)), 'post',
+                                    'a component of the result may be None where the contract requires %s' % ti, node)
+                        v = strip_opt(v)
+                    new.append(v)
+                return MTup(new)
+        return val
 
     def do_yield_from(self, st, seq, node):
         yt = self.c.yields
